@@ -140,6 +140,14 @@ CHECKS = {
              "and every .content write-back is the unfiltered list parsed from that same node, and that the output is the serialisation of this file's own rules. Holds for every stylesheet; the tests only grep for substrings. tinycss2's serialise-after-parse identity is assumed, not decided.",
         ref="DESIGN 3/C09",
         note=TB + "; tinycss2 keeps whitespace/comment tokens when the skip_* flags are False and serialises untouched tokens verbatim"),
+    "C08": dict(
+        technique="static path rules over the ast CFG (exactly-one-counter counting dataflow incl. exception edges, must-pass-through with boolean-flag path sensitivity), reaching-definition origins for written == reported == API value, allocation-site ownership of declaration lists for write survival, constant-table agreement",
+        category="other",
+        text="Decides, for every stylesheet shape at once: each rule with a text colour increments exactly one counter; the value written, the value reported and pair.make_readable(mode, very_readable=premium)[0] are one value; every 'adjusted' path writes and no other path does; "
+             "every write lands in the list that is serialised last into its rule; the CLI target equals the optimiser's minimum; last declaration wins; nested recursion forwards everything. Re-derived two genuine defects (F-C08a: var() fallback/undefined reported adjusted but unwritten; "
+             "F-C08b: html/:root colour fix overwritten by a stale snapshot), both now fixed in /repo.",
+        ref="DESIGN 3/C08, 4/F-C08a, F-C08b",
+        note=TB + "; relies on C01 for 'the success flag is the WCAG verdict'; the effect of a shared custom property on rules counted earlier is not decided"),
 }
 
 NOT_APPLICABLE = {
@@ -176,7 +184,7 @@ def main():
             "enable": "no hooks: every check is a static analysis of /repo/src/cm_colors read with ast; nothing of the repository is built, imported or executed",
             "baseline_off_cmd": "cd /repo && /venv/bin/python -m pytest -q -p no:cacheprovider --timeout=900",
             "source_commits": [],
-            "fix_commits": ["133000f fix: hsla_to_rgb tuple branch raises ValueError (not TypeError) for non-numeric components", "f8908b4 fix: clamp the grey fallback lightness of rgb_to_oklch_safe to [0, 1]", "a0f5ade fix: clamp HSL saturation to [0, 1] in rgb_to_hsl so the emitted hsl() string parses back"],
+            "fix_commits": ["133000f fix: hsla_to_rgb tuple branch raises ValueError (not TypeError) for non-numeric components", "f8908b4 fix: clamp the grey fallback lightness of rgb_to_oklch_safe to [0, 1]", "a0f5ade fix: clamp HSL saturation to [0, 1] in rgb_to_hsl so the emitted hsl() string parses back", "5522f8d fix: rewrite the declaration itself when an adjusted var() colour has no definition to update", "c289190 fix: edit :root/html rules in the declaration list that main writes back"],
             "add_only": True,
         },
         "engines": [{
